@@ -1,6 +1,8 @@
 package main
 
 import (
+	"golang.org/x/tools/go/ssa"
+	"go/types"
 	"bytes"
 	"context"
 	"fmt"
@@ -14,7 +16,12 @@ import (
 )
 
 // prelude emits sorts, uninterpreted functions and axioms shared by all queries.
-func (e *Engine) prelude() string {
+func (e *Engine) prelude() string { return e.preludeFor("") }
+
+// preludeFor: the prelude restricted to the string literals that occur in the given query text
+// (an empty text keeps all), so that a query does not depend on which other functions the
+// engine has translated before.
+func (e *Engine) preludeFor(text string) string {
 	var sb strings.Builder
 	sb.WriteString("(declare-sort Str 0)\n(declare-sort Bytes 0)\n(declare-sort F64 0)\n")
 	sb.WriteString("(declare-fun s_len (Str) Int)\n(declare-fun s_at (Str Int) (_ BitVec 8))\n")
@@ -28,19 +35,28 @@ func (e *Engine) prelude() string {
 	sb.WriteString("(define-fun tdiv ((a Int) (b Int)) Int (ite (>= a 0) (ite (> b 0) (div a b) (- (div a (- b)))) (ite (> b 0) (- (div (- a) b)) (div (- a) (- b)))))\n")
 	sb.WriteString("(define-fun trem ((a Int) (b Int)) Int (- a (* b (tdiv a b))))\n")
 	// string literals
-	for i, s := range e.strList {
-		fmt.Fprintf(&sb, "(declare-const strlit%d Str)\n(assert (= (s_len strlit%d) %d))\n", i, i, len(s))
-		for k := 0; k < len(s) && k < 8; k++ {
-			fmt.Fprintf(&sb, "(assert (= (s_at strlit%d %d) (_ bv%d 8)))\n", i, k, s[k])
-		}
-		if s == "" {
-			fmt.Fprintf(&sb, "(assert (= strlit%d strlit_empty))\n", i)
+	var usedLits []int
+	for i := range e.strList {
+		if text == "" || containsToken(text, e.strNames[i]) {
+			usedLits = append(usedLits, i)
 		}
 	}
-	if len(e.strList) > 1 {
+	sort.Slice(usedLits, func(a, b int) bool { return e.strNames[usedLits[a]] < e.strNames[usedLits[b]] })
+	for _, i := range usedLits {
+		s := e.strList[i]
+		nm := e.strNames[i]
+		fmt.Fprintf(&sb, "(declare-const %s Str)\n(assert (= (s_len %s) %d))\n", nm, nm, len(s))
+		for k := 0; k < len(s) && k < 8; k++ {
+			fmt.Fprintf(&sb, "(assert (= (s_at %s %d) (_ bv%d 8)))\n", nm, k, s[k])
+		}
+		if s == "" {
+			fmt.Fprintf(&sb, "(assert (= %s strlit_empty))\n", nm)
+		}
+	}
+	if len(usedLits) > 1 {
 		sb.WriteString("(assert (distinct")
-		for i := range e.strList {
-			fmt.Fprintf(&sb, " strlit%d", i)
+		for _, i := range usedLits {
+			fmt.Fprintf(&sb, " %s", e.strNames[i])
 		}
 		sb.WriteString("))\n")
 	}
@@ -52,6 +68,9 @@ func (e *Engine) prelude() string {
 	sort.Strings(bs)
 	for _, s := range bs {
 		tag := sortTag(Sort(s))
+		if text != "" && !strings.Contains(text, "box_"+tag) {
+			continue
+		}
 		fmt.Fprintf(&sb, "(declare-fun box_%s (%s) Int)\n(declare-fun unbox_%s (Int) %s)\n", tag, s, tag, s)
 		fmt.Fprintf(&sb, "(assert (forall ((x %s)) (! (= (unbox_%s (box_%s x)) x) :pattern ((box_%s x)))))\n", s, tag, tag, tag)
 	}
@@ -64,6 +83,9 @@ func (e *Engine) prelude() string {
 	}
 	sort.Strings(sl)
 	for _, n := range sl {
+		if text != "" && !strings.Contains(text, n) {
+			continue
+		}
 		ss := slotFns[n]
 		var ps, xs, srt []string
 		for i, s := range ss {
@@ -85,6 +107,9 @@ func (e *Engine) prelude() string {
 	}
 	sort.Strings(ap)
 	for _, n := range ap {
+		if text != "" && !strings.Contains(text, n) {
+			continue
+		}
 		ss := applyFns[n]
 		var srt []string
 		for _, s := range ss[:len(ss)-1] {
@@ -100,10 +125,13 @@ func (e *Engine) prelude() string {
 }
 
 // query builds the SMT-LIB text for one obligation.
-func (fc *FnCtx) query(o *Oblig) string {
+func (fc *FnCtx) query(o *Oblig) string { return fc.queryMode(o, false) }
+
+// queryMode with instancesOnly=true drops every universally quantified hypothesis that has been
+// instantiated explicitly (keeping only its instances). The result has fewer hypotheses, so
+// `unsat` for it is a proof of the full obligation; `sat`/`unknown` for it mean nothing.
+func (fc *FnCtx) queryMode(o *Oblig, instancesOnly bool) string {
 	var sb strings.Builder
-	sb.WriteString("(set-option :produce-models true)\n(set-logic ALL)\n")
-	sb.WriteString(fc.eng.prelude())
 	var opq map[string]bool
 	if fc.opaqueRec {
 		opq = map[string]bool{}
@@ -138,6 +166,11 @@ func (fc *FnCtx) query(o *Oblig) string {
 		}
 		return fc.reach[b]
 	}
+	instTerms := append([]Term{}, o.InstTerms...)
+	if o.blk >= 0 && fc.c != nil && fc.c.InstCounters {
+		instTerms = append(instTerms, fc.loopCounterTerms(o.blk)...)
+		instTerms = append(instTerms, IntLit(0)) // first element / first row
+	}
 	for _, f := range fc.facts {
 		use := false
 		switch {
@@ -153,14 +186,18 @@ func (fc *FnCtx) query(o *Oblig) string {
 		if !use {
 			continue
 		}
-		fmt.Fprintf(&sb, "(assert %s)\n", Implies(reach(f.blk), f.t).S)
+		if instancesOnly && len(instTerms) > 0 && len(topForalls(f.t.S)) > 0 {
+			if rest := stripTopForalls(f.t.S); rest != "" {
+				fmt.Fprintf(&sb, "(assert %s)\n", Implies(reach(f.blk), Term{rest, SBool}).S)
+			}
+		} else {
+			fmt.Fprintf(&sb, "(assert %s)\n", Implies(reach(f.blk), f.t).S)
+		}
 		// explicit instances of universally quantified hypotheses at the goal's skolem terms
-		if len(o.InstTerms) > 0 {
-			for _, q := range topForalls(f.t.S) {
-				for _, it := range o.InstTerms {
-					inst := replaceVar(q.body, q.v, it.S)
-					fmt.Fprintf(&sb, "(assert %s)\n", Implies(reach(f.blk), Term{inst, SBool}).S)
-				}
+		// and at the counters of the enclosing loops
+		if len(instTerms) > 0 {
+			for _, inst := range instancesOf(f.t.S, instTerms, 2) {
+				fmt.Fprintf(&sb, "(assert %s)\n", Implies(reach(f.blk), Term{inst, SBool}).S)
 			}
 		}
 	}
@@ -169,7 +206,23 @@ func (fc *FnCtx) query(o *Oblig) string {
 	}
 	fmt.Fprintf(&sb, "(assert (not %s))\n", Implies(reach(o.blk), o.goal).S)
 	sb.WriteString("(check-sat)\n(get-model)\n")
-	return sb.String()
+	body := sb.String()
+	return "(set-option :produce-models true)\n(set-logic ALL)\n" + fc.eng.preludeFor(body) + body
+}
+
+// containsToken: name occurs in text not followed by a digit (strlit1 vs strlit10).
+func containsToken(text, name string) bool {
+	for i := 0; ; {
+		j := strings.Index(text[i:], name)
+		if j < 0 {
+			return false
+		}
+		k := i + j + len(name)
+		if k >= len(text) || text[k] < '0' || text[k] > '9' {
+			return true
+		}
+		i = k
+	}
 }
 
 type solverSpec struct {
@@ -256,11 +309,34 @@ func (e *Engine) solveOne(o *Oblig, dir string, t1, t2 int) {
 	if o.NoReach && t1 > 2 {
 		t1 = 2
 	}
+	// weaker variant: explicitly instantiated quantified hypotheses replaced by their instances
+	var gfile string
+	if o.RawQuery == "" && !o.NoReach && o.fc != nil && o.fc.hasInstTerms(o) {
+		gq := o.fc.queryMode(o, true)
+		if gq != q {
+			gfile = filepath.Join(dir, sanitize(o.Name)+".inst.smt2")
+			if os.WriteFile(gfile, []byte(gq), 0644) != nil {
+				gfile = ""
+			}
+		}
+	}
+	gch := make(chan solveResult, 1)
+	if gfile != "" {
+		go func() { gch <- runSolver(solvers[0], gfile, t1) }()
+	}
 	r := runSolver(solvers[0], file, t1)
 	o.Secs += r.secs
 	if r.status == "proved" || r.status == "refuted" || o.NoReach {
 		o.Status, o.Solver, o.Model = r.status, r.solver, r.out
 		return
+	}
+	if gfile != "" {
+		if g := <-gch; g.status == "proved" {
+			o.Status, o.Solver, o.Model = "proved", g.solver+"(instances-only)", g.out
+			return
+		}
+		// second chance for the weaker variant with the long timeout, alongside stage 2
+		go func() { gch <- runSolver(solvers[0], gfile, t2) }()
 	}
 	first := r
 	// stage 2: all solvers in parallel with the long timeout
@@ -274,7 +350,24 @@ func (e *Engine) solveOne(o *Oblig, dir string, t1, t2 int) {
 	best.out = first.out
 	best.solver = first.solver
 	for range solvers {
-		r := <-ch
+		var r solveResult
+		if gfile != "" {
+			select {
+			case r = <-ch:
+			case g := <-gch:
+				if g.status == "proved" {
+					o.Status, o.Solver, o.Model = "proved", g.solver+"(instances-only)", g.out
+					if g.secs > o.Secs {
+						o.Secs = g.secs
+					}
+					return
+				}
+				gfile = ""
+				r = <-ch
+			}
+		} else {
+			r = <-ch
+		}
 		if r.secs > o.Secs {
 			o.Secs = r.secs
 		}
@@ -390,6 +483,56 @@ type qform struct{ v, body string }
 // topForalls finds universally quantified conjuncts (single Int variable) at the top
 // level of a fact: "(forall ((x Int)) B)", possibly under a top-level "and", and with an
 // optional "(! B :pattern ...)" wrapper.
+// instancesOf: instances of the universally quantified conjuncts of a hypothesis at the given
+// terms; a quantifier nested in the consequent of an instance (forall j. A => forall r. B) is
+// instantiated again, up to the given depth.
+func instancesOf(fact string, terms []Term, depth int) []string {
+	var out []string
+	for _, q := range topForalls(fact) {
+		for _, it := range terms {
+			inst := replaceVar(q.body, q.v, it.S)
+			out = append(out, inst)
+			if depth > 1 && strings.HasPrefix(inst, "(=> ") {
+				parts := splitSexprs(inst[4 : len(inst)-1])
+				if len(parts) == 2 && strings.HasPrefix(parts[1], "(forall ((") {
+					for _, sub := range instancesOf(parts[1], terms, depth-1) {
+						out = append(out, "(=> "+parts[0]+" "+sub+")")
+					}
+				}
+			}
+		}
+	}
+	return out
+}
+
+// stripTopForalls: the conjunction of the conjuncts of s that are not single-variable
+// universal quantifiers ("" if none is left).
+func stripTopForalls(s string) string {
+	var keep []string
+	var visit func(t string)
+	visit = func(t string) {
+		t = strings.TrimSpace(t)
+		if strings.HasPrefix(t, "(and ") {
+			for _, part := range splitSexprs(t[5 : len(t)-1]) {
+				visit(part)
+			}
+			return
+		}
+		if len(topForalls(t)) > 0 {
+			return
+		}
+		keep = append(keep, t)
+	}
+	visit(s)
+	if len(keep) == 0 {
+		return ""
+	}
+	if len(keep) == 1 {
+		return keep[0]
+	}
+	return "(and " + strings.Join(keep, " ") + ")"
+}
+
 func topForalls(s string) []qform {
 	var out []qform
 	var visit func(t string)
@@ -464,4 +607,46 @@ func replaceVar(body, v, t string) string {
 		i = end
 	}
 	return sb.String()
+}
+
+// loopCounterTerms: the integer loop-carried values (counters, range indices; for a range
+// index also index+1) of the loops that contain block b. Quantified hypotheses are instantiated
+// at them in addition to whatever the solver finds by matching.
+func (fc *FnCtx) loopCounterTerms(b int) []Term {
+	var out []Term
+	seen := map[string]bool{}
+	for _, li := range fc.loops {
+		if !li.body[b] {
+			continue
+		}
+		for _, ins := range li.header.Instrs {
+			phi, ok := ins.(*ssa.Phi)
+			if !ok {
+				break
+			}
+			v, known := fc.vals[phi]
+			if !known || v.K != KLeaf || v.T.Sort != SInt {
+				continue
+			}
+			if bt, ok := phi.Type().Underlying().(*types.Basic); !ok || bt.Info()&types.IsInteger == 0 {
+				continue
+			}
+			for _, t := range []Term{v.T, Add(v.T, IntLit(1))} {
+				if !seen[t.S] {
+					seen[t.S] = true
+					out = append(out, t)
+				}
+			}
+		}
+	}
+	return out
+}
+
+// hasInstTerms: the obligation has explicit instantiation terms (skolems, inst expressions,
+// loop counters).
+func (fc *FnCtx) hasInstTerms(o *Oblig) bool {
+	if len(o.InstTerms) > 0 {
+		return true
+	}
+	return o.blk >= 0 && fc.c != nil && fc.c.InstCounters
 }
